@@ -31,16 +31,18 @@ fn config_key(input: LocatedSpan) -> IResult<String> {
 
 /// Tries to parse a config map
 pub fn config_map(input: LocatedSpan) -> IResult<Token> {
-    map_once(
-        tuple((mws(char('{')), many0(kvp), mws(char('}')))),
-        move |(lparen, inner, rparen)| {
-            Token::Config(Block {
-                lparen,
-                inner,
-                rparen,
-            })
-        },
-    )(input)
+    nested(|input| {
+        map_once(
+            tuple((mws(char('{')), many0(kvp), mws(char('}')))),
+            move |(lparen, inner, rparen)| {
+                Token::Config(Block {
+                    lparen,
+                    inner,
+                    rparen,
+                })
+            },
+        )(input)
+    })(input)
 }
 
 #[cfg(test)]
